@@ -947,7 +947,10 @@ double myatof(const char* s)
 		if (c == 'E' || c == 'e') break;
 		y1 = 10 * y1 + (c - '0');
 	}
-	y = double(y1) * pow(10.0, exp);
+	if (exp < -290) // 10^exp alone would be subnormal or 0 and lose the digits: scale in two steps
+		y = double(y1) * pow(10.0, exp + 290) * 1e-290;
+	else
+		y = double(y1) * pow(10.0, exp);
 	return y * m;
 }
 
